@@ -8,6 +8,8 @@ from harness.common import Scratch, VERSIONS, seed
 from harness.result import Outcome
 
 PROP = 'C10'
+BREAK_KEYWORDS = {'import', 'class', 'def', 'try', 'except', 'finally', 'while', 'with', 'return', 'continue', 'break',
+                  'del', 'pass', 'global', 'assert', 'nonlocal'}
 FPREFIX = ('f', 'F', 'rf', 'fr', 'Rf', 'fR', 'rF', 'Fr', 'RF', 'FR')
 
 
@@ -30,11 +32,49 @@ def token_pair(tid, text, v, cpy):
                           'f': False})
     except Exception:
         praised = True
-    return {'id': tid, 'kind': 'tokens', 'v312': tuple(map(int, v.split('.'))) >= (3, 12), 'cpy': ctoks, 'par': ptoks,
+    # a statement keyword while CPython still has a bracket open (only in programs that do not compile): parso's
+    # tokenizer deliberately closes all brackets there (error recovery) - cause class of a known finding
+    depth = 0
+    bk = False
+    for t, s, l, c, el, ec in cpy:
+        if t == 'OP' and s in '([{':
+            depth += 1
+        elif t == 'OP' and s in ')]}' and depth:
+            depth -= 1
+        elif t == 'NAME' and depth and s in BREAK_KEYWORDS:
+            bk = True
+    return {'id': tid, 'kind': 'tokens', 'bk': bk, 'v312': tuple(map(int, v.split('.'))) >= (3, 12), 'cpy': ctoks, 'par': ptoks,
             'empty': 1, 'praised': praised, 'text': text, 'ver': v,
             'ff': bool(__import__('re').search(r'(?m)^[ \t]*\f', text)),
             # a physical line that holds nothing but blanks and a backslash continuation (cause class of a known finding)
             'bs': bool(__import__('re').search(r'(?m)^[ \t\f]*\\\r?\n', text))}
+
+
+def _c_tokenizer(jv):
+    return tuple(int(x) for x in jv.split('.')[:2]) >= (3, 12)
+
+
+def _parser_level(err):
+    return err.startswith(('SyntaxError: invalid syntax', 'SyntaxError: expected', 'IndentationError: expected an indented'))
+
+
+_NUMBER = __import__('re').compile(
+    r'(?i)(0x(_?[0-9a-f])+|0b(_?[01])+|0o(_?[0-7])+|(0(_?0)*|[1-9](_?[0-9])*)|'
+    r'(([0-9](_?[0-9])*)?\.[0-9](_?[0-9])*|[0-9](_?[0-9])*\.)(e[-+]?[0-9](_?[0-9])*)?|[0-9](_?[0-9])*e[-+]?[0-9](_?[0-9])*)j?\Z|'
+    r'[0-9](_?[0-9])*j\Z')
+
+
+def _clean_tokens(toks):
+    import token
+    ops = set(token.EXACT_TOKEN_TYPES)
+    for t in toks:
+        if t[0] == 'OP' and t[1] not in ops:
+            return False
+        if t[0] == 'NAME' and not t[1].isidentifier():
+            return False
+        if t[0] == 'NUMBER' and not _NUMBER.match(t[1]):
+            return False
+    return True
 
 
 def _empty_logical_line(toks):
@@ -63,6 +103,7 @@ def run(tier):
         traces = []
         nacc_ref = 0
         n_artefact = 0
+        n_nocompile = 0
         for v, plist in progs.items():
             jv = oracle.judge_version(v)
             texts = [t for t, _ in plist]
@@ -71,8 +112,16 @@ def run(tier):
             for (text, origin), r, cr in zip(plist, res, comp):
                 if __import__('re').search(r'\r(?!\n)', text):
                     continue        # the reference (tokenize over readline) does not treat a bare \\r as a line break
-                if not cr['ok'] or not r['ok'] or any(t[0] == 'ERRORTOKEN' for t in r['toks']):
+                if not r['ok'] or any(t[0] == 'ERRORTOKEN' for t in r['toks']):
                     continue        # CPython does not tokenize it without error: no claim
+                if not cr['ok'] and not (_c_tokenizer(jv) and _parser_level(cr.get('err', '')) and _clean_tokens(r['toks'])):
+                    # a program that tokenizes but does not compile is only used when the reference IS the C tokenizer
+                    # (tokenize of 3.12+), the compiler's complaint is a parser-level one ("invalid syntax", "expected ..."),
+                    # and no token is one that tokenize merely passes through although the real tokenizer rejects it
+                    # (`$`, `?`, U+00A0 come back as OP / NAME, `09` as NUMBER); the pure-Python tokenize of <= 3.11 accepts streams the real tokenizer
+                    # rejects (`)(`, inconsistent dedents), so for it the program must compile
+                    continue
+                n_nocompile += 0 if cr['ok'] else 1
                 if _empty_logical_line(r['toks']):
                     n_artefact += 1
                     continue        # reference artefact, see _empty_logical_line
@@ -80,7 +129,7 @@ def run(tier):
                 tr = token_pair(len(traces) + 1, text, v, r['toks'])
                 tr['origin'] = origin
                 traces.append(tr)
-        slim = [{k: t[k] for k in ('id', 'kind', 'v312', 'cpy', 'par', 'empty', 'praised', 'ff', 'bs')} for t in traces]
+        slim = [{k: t[k] for k in ('id', 'kind', 'v312', 'cpy', 'par', 'empty', 'praised', 'ff', 'bs', 'bk')} for t in traces]
         acc = 0
         rejects = []
         for i in range(0, len(slim), 1500):
@@ -95,7 +144,7 @@ def run(tier):
             out.violation(r[3], 'Relational.' + r[3], {'text': t['text'][:400], 'version': t['ver'], 'origin': t['origin']},
                           {'kind': 'tokens', 'text': t['text'], 'version': t['ver']})
         out.cov(evaluations=len(traces), distinct_nontrivial=len({(t['text'], t['ver']) for t in traces if len(t['cpy']) > 3}),
-                traces_validated_against_impl=acc, reference_accepted=nacc_ref, reference_artefacts_skipped=n_artefact,
+                traces_validated_against_impl=acc, reference_accepted=nacc_ref, reference_artefacts_skipped=n_artefact, tokenizable_but_not_compilable=n_nocompile,
                 versions=versions,
                 rule='programs = every numeric / string-literal shape (TLC Strings over two literal alphabets, <= 4/5 symbols, as `x = <lit>`) + stdlib chunks of the judging interpreter and their token-level mutations + rendered ParserB '
                      'sentences (two spellings), kept iff interpreter V compiles them and its tokenize accepts them without ERRORTOKEN; one (CPython, parso) token '
